@@ -11,9 +11,9 @@ done
 if [ -f /verif/findings_proposed/$E.json ]; then python3 - <<PY
 import json
 kf=json.load(open('/verif/known_findings.json')); new=json.load(open('/verif/findings_proposed/$E.json'))
-ids={x['id'] for x in kf['open']}|{x['detail']['id'] for x in kf['fixed']}
+ids={(x['property'],x['id']) for x in kf['open']}|{(x['detail']['property'],x['detail']['id']) for x in kf['fixed']}
 for f in (new if isinstance(new,list) else new.get('open', [])):
-    if f['id'] not in ids: kf['open'].append(f); print("  + finding", f['property'], f['id'])
+    if (f['property'],f['id']) not in ids: kf['open'].append(f); ids.add((f['property'],f['id'])); print("  + finding", f['property'], f['id'])
 json.dump(kf,open('/verif/known_findings.json','w'),indent=1)
 PY
 fi
